@@ -4,7 +4,6 @@
 From V.model Require Import Base RelLex RelParse RelAcc RelGrammar.
 From V.model Require Import RelEdit RelEditSpec RelEditTree RelLive.
 From V.proofs Require Import BaseP RelEditP RelEditTreeP.
-Set Default Timeout 60.
 
 Notation rt := relem_tree.
 
